@@ -42,7 +42,12 @@ Record fobs := {
 }.
 Record case := { k_forms : list form; k_outs : list outcome; k_obs : list fobs }.
 
-Definition fobs_agree (st : state) (o : fobs) : bool :=
+(* a send outside the whopper guard may answer what the model says (the known finding) or what the
+   specification says (the defect repaired): neither is an alarm *)
+Definition send_ok (ss : sstate) (f : nat) (m : mid) (arg : option Z) (model observed : out) : bool :=
+  out_eqb model observed ||
+  (let cs := s_table ss f m in negb (g_whop cs) && out_eqb (s_send (s_var (ss_decls ss) f) arg cs) observed).
+Definition fobs_agree (ss : sstate) (st : state) (o : fobs) : bool :=
   match find_flavor st (o_f o) with
   | None => false
   | Some fl =>
@@ -52,8 +57,8 @@ Definition fobs_agree (st : state) (o : fobs) : bool :=
       forallb (fun kb => opt_eqb val_eqb (lookup Nat.eqb (fst kb) (f_keys fl)) (snd kb)) (o_keys o) &&
       forallb (fun kb => Bool.eqb (isSome (lookup Nat.eqb (fst kb) (f_keys fl))) (snd kb)) (o_init o) &&
       forallb (fun mt => list_eqb shape_eqb (map shape_of (table st (o_f o) (fst mt))) (snd mt)) (o_tables o) &&
-      forallb (fun s => out_eqb (send st (o_f o) (fst (fst s)) (snd (fst s))) (snd s)) (o_sends o) &&
-      forallb (fun s => out_eqb (bound_send fixed st (o_f o) (fst s)) (snd s)) (o_bound o)
+      forallb (fun s => send_ok ss (o_f o) (fst (fst s)) (snd (fst s)) (send st (o_f o) (fst (fst s)) (snd (fst s))) (snd s)) (o_sends o) &&
+      forallb (fun s => send_ok ss (o_f o) (fst s) None (bound_send fixed st (o_f o) (fst s)) (snd s)) (o_bound o)
   end.
 
 (* the specification's state after the admissible forms of the history, and the outcomes it expects *)
@@ -93,7 +98,8 @@ Definition spec_violation (c : case) : bool :=
    3: M = observed but contradicts S inside the guard: the guard or a theorem is wrong. *)
 Definition check_case (c : case) : N :=
   let '(st, outs) := run fixed init (k_forms c) in
-  let agree := list_eqb outcome_eqb outs (k_outs c) && forallb (fobs_agree st) (k_obs c) in
+  let ss := fst (s_history s_init (k_forms c)) in
+  let agree := list_eqb outcome_eqb outs (k_outs c) && forallb (fobs_agree ss st) (k_obs c) in
   let viol := spec_violation c in
   if agree then (if viol then 3%N else 0%N) else (if viol then 2%N else 1%N).
 
